@@ -59,7 +59,12 @@ Alphabet == <<
   U("var", "[!a]*"),    \* 29
   U("lit", "ln/"),      \* 30
   U("lit", "dl"),       \* 31
-  U("var", "?/")        \* 32
+  U("var", "?/"),       \* 32
+  U("lit", "[b-a]"),    \* 33  empty range: no specified meaning
+  U("sq", "\\"),        \* 34  a quoted backslash is an ordinary character
+  U("dq", "\\"),        \* 35
+  U("bs", "\\"),        \* 36
+  U("lit", "[[:x:]]")   \* 37  undefined character class
 >>
 
 ASSUME Core \subseteq 1..Len(Alphabet)
@@ -113,6 +118,13 @@ Prefixes ==
    Nd(<<"sub">>, "d"), Nd(<<"sub", "a">>, "d"), Nd(<<"sub", "a", "b">>, "f"),
    Nd(<<"sub", "a.">>, "d"), Nd(<<"sub", "a.", "b">>, "f"), Nd(<<"a+">>, "d"), Nd(<<"a+", "b">>, "f")}
 
+\* file names that hold a backslash
+Backslash ==
+  {Nd(<<"a\\">>, "f"), Nd(<<"a\\b">>, "f"), Nd(<<"\\a">>, "f"), Nd(<<"\\">>, "f"), Nd(<<"a">>, "f"), Nd(<<"ab">>, "f"),
+   Nd(<<"a*">>, "f"), Nd(<<"*">>, "f"), Nd(<<"b">>, "f"),
+   Nd(<<"b\\">>, "d"), Nd(<<"b\\", "a">>, "f"), Nd(<<"b\\", "a\\">>, "f"),
+   Nd(<<"sub">>, "d"), Nd(<<"sub", "\\*">>, "f"), Nd(<<"sub", "a">>, "f")}
+
 \* [cwd, nodes]
 Rich == <<
   [cwd |-> <<Scope>>, S |-> Flat],
@@ -122,7 +134,8 @@ Rich == <<
   [cwd |-> <<Scope, "sub">>, S |-> Nested],
   [cwd |-> <<Scope, "sub">>, S |-> Links],
   [cwd |-> <<Scope>>, S |-> {}],
-  [cwd |-> <<Scope>>, S |-> Prefixes]
+  [cwd |-> <<Scope>>, S |-> Prefixes],
+  [cwd |-> <<Scope>>, S |-> Backslash]
 >>
 
 \* the universe from which small and random trees are drawn
@@ -220,7 +233,13 @@ Line ==
   LET cs == Cs
       pp == Readings(cs, names)
   IN
-  IF UnspecifiedR(pp) THEN [f |-> field, un |-> TRUE, ng |-> "", r |-> <<>>]
+  IF UnspecifiedR(pp)
+  THEN \* a: one list, the pathnames a result may hold (weak judgement)
+       [f |-> field, un |-> TRUE, ng |-> Removed(cs),
+        r |-> [i \in 1..Len(trees) |->
+                 IF WeakOutsideR(pp, names, trees[i].T, trees[i].cwd, Scope)
+                 THEN [o |-> TRUE, a |-> <<>>]
+                 ELSE [o |-> FALSE, a |-> <<SortStrings(WeakUniverse(pp, names, trees[i].T, trees[i].cwd))>>]]]
   ELSE [f |-> field, un |-> FALSE,
         ng |-> Removed(cs),
         r |-> [i \in 1..Len(trees) |->
